@@ -752,6 +752,8 @@ def builtin (fn : String) (args : List Val) : Option (M Val) :=
   | "isinstance", [v, .str "int"] => some (M.pure (.bool (.lit (match v with | .int _ => true | .bool _ => true | _ => false))))
   | "isinstance", [v, .str "bool"] => some (M.pure (.bool (.lit (match v with | .bool _ => true | _ => false))))
   | "isinstance", [v, .str "float"] => some (M.pure (.bool (.lit (match v with | .num _ => true | _ => false))))
+  | "isinstance", [v, .str "list"] => some (M.pure (.bool (.lit (match v with | .list _ => true | _ => false))))
+  | "isinstance", [v, .str "dict"] => some (M.pure (.bool (.lit (match v with | .dict _ _ => true | _ => false))))
   | "isinstance", [v, .str "str"] => some (M.pure (.bool (.lit (match v with | .str _ => true | _ => false))))
   | "warnings.warn", _ => some (M.pure .none)
   | "len", [.list l] => some (M.pure (.int (.lit l.length)))
@@ -878,7 +880,7 @@ def eval (env : Env) : Nat → Expr → Vars → St → M (Val × St)
         | some v => M.pure (v, st)
         | Option.none =>
           -- the built-in type objects (only ever passed to `cast` / compared by name)
-          if x = "int" ∨ x = "float" ∨ x = "bool" ∨ x = "str" then M.pure (.str x, st)
+          if x = "int" ∨ x = "float" ∨ x = "bool" ∨ x = "str" ∨ x = "list" ∨ x = "dict" then M.pure (.str x, st)
           else M.fail (.unbound x)
     | .attr e a => do
       let (v, st) ← eval env n e vars st
